@@ -1151,11 +1151,12 @@ fn measured<T: Tgt>(doc: &str, pos: Pos) -> Result<(Result<T, String>, Result<T,
         Ok((on, off, calls, bytes))
     })
 }
-/// allocation bound: calls <= 200 + len/64, bytes <= 64 KiB + 24 * len (measured maxima are in
-/// the evidence; see report-C19.md)
+/// allocation bound: at most one allocator call per input byte (+400) and 64 KiB + 40 bytes per
+/// input byte (the evaluator allocates one 32-byte buffer per number token; measured maxima are
+/// in the evidence)
 fn alloc_bound(len: usize, calls: u64, bytes: u64) -> Result<(), Bad> {
-    let max_calls = 400 + (len as u64) / 32;
-    let max_bytes = (64 << 10) + 24 * len as u64;
+    let max_calls = 400 + len as u64;
+    let max_bytes = (64 << 10) + 40 * len as u64;
     if calls > max_calls || bytes > max_bytes {
         return fail(format!("work bound exceeded: {calls} allocator calls / {bytes} bytes for a {len}-byte document (limits {max_calls} / {max_bytes})"));
     }
@@ -1345,6 +1346,30 @@ fn sig_f32_double_rounding(c: &Case) -> bool {
         (Ok(a), Ok(b)) => a.to_bits() != (b as f32).to_bits(),
         _ => false,
     }
+}
+
+/// the scalar holds an ASCII digit or '.' at byte i and byte i+4 is inside a multi-byte character:
+/// `Parser::starts_ci` slices the text at i+4 when a number starts at i and panics
+fn sig_non_ascii_after_number(c: &Case) -> bool {
+    let owned;
+    let s: &str = match &c.body {
+        Body::Bytes(b) => match std::str::from_utf8(b) {
+            Ok(s) => s,
+            Err(_) => return false,
+        },
+        _ => match content_of(c) {
+            Some(x) => {
+                owned = x;
+                &owned
+            }
+            None => return false,
+        },
+    };
+    if s.is_ascii() {
+        return false;
+    }
+    let b = s.as_bytes();
+    (0..b.len()).any(|i| (b[i].is_ascii_digit() || b[i] == b'.') && i + 4 <= b.len() && !s.is_char_boundary(i + 4))
 }
 
 // ------------------------------------------------------------------------------------------
@@ -1609,6 +1634,9 @@ impl Property for C19 {
     fn signatures(c: &Case) -> Vec<&'static str> {
         if sig_f32_double_rounding(c) {
             return vec!["f32_literal_double_rounding"];
+        }
+        if sig_non_ascii_after_number(c) {
+            return vec!["non_ascii_within_4_bytes_of_number_start"];
         }
         vec![]
     }
